@@ -115,14 +115,14 @@ def rule_codec(ctx):
     # type tag string: ',' + tags ; address first
     src = full(b.node)
     ok = "dgram += write_string(self._address)" in src and "dgram += write_string(',' + arg_types)" in src and \
-        src.index("write_string(self._address)") < src.index("write_string(',' + arg_types)")
+        U.before(src, "write_string(self._address)", "write_string(',' + arg_types)")
     ctx.ob('C06.codec', f'{m.name}:OscMessageBuilder.build:header', ok, 'address then ",tags" then arguments', b.node, m)
     # bundle: prefix, timetag, size-prefixed elements
     bb = ctx.repo.func('sc3.base._osclib:OscBundleBuilder.build')
     src = full(bb.node)
     ok = 'dgram = _BUNDLE_PREFIX_DGRAM' in src and 'dgram += write_timetag(self._timetag)' in src and \
         'size = content.size' in src and 'dgram += write_int(size)' in src and 'dgram += content.dgram' in src and \
-        src.index('dgram += write_int(size)') < src.index('dgram += content.dgram')
+        U.before(src, 'dgram += write_int(size)', 'dgram += content.dgram')
     ctx.ob('C06.codec', f'{m.name}:OscBundleBuilder.build', ok, '#bundle, timetag, then int32 size + element for each content', bb.node, m)
     ctx.ob('C06.codec', f'{m.name}:_BUNDLE_PREFIX_DGRAM', U.literal(m.assigns.get('_BUNDLE_PREFIX_DGRAM')) == b'#bundle\x00',
            'bundle prefix must be b"#bundle\\0"', None, m)
